@@ -134,6 +134,13 @@ func (m *MatchField) MarshalBinary() (data []byte, err error) {
 	data[n] = m.Length
 	n += 1
 
+	// experimenter-class fields carry the experimenter id in front of the
+	// value (Len() and the decoder already account for it)
+	if m.ExperimenterID != 0 {
+		binary.BigEndian.PutUint32(data[n:], m.ExperimenterID)
+		n += 4
+	}
+
 	b, err := m.Value.MarshalBinary()
 	copy(data[n:], b)
 	n += len(b)
